@@ -74,6 +74,9 @@ pub enum Op {
 	/// `Job::control(Control::ContinueTryGracefulRestart)`: the public escape hatch, sending the
 	/// control the grace timer normally produces
 	RawContinue,
+	/// `Job::control(Control::NextEnding)`: the wait-for-end control sent through the public escape hatch,
+	/// which (unlike `to_wait()`) queues it at normal priority, in order with the other normal controls
+	RawNextEnding,
 }
 
 impl Op {
@@ -101,6 +104,7 @@ impl Op {
 			Op::UnsetErrHandler => "unset_error_handler",
 			Op::DropHandle => "drop_handle",
 			Op::RawContinue => "control(ContinueTryGracefulRestart)",
+			Op::RawNextEnding => "control(NextEnding)",
 		}
 	}
 }
@@ -234,6 +238,7 @@ fn send(job: &Job, op: &Op, shared: &Arc<Shared>, world: &World, step: usize) ->
 		Op::UnsetErrHandler => job.unset_error_handler(),
 		Op::DropHandle => unreachable!(),
 		Op::RawContinue => job.control(watchexec_supervisor::job::Control::ContinueTryGracefulRestart),
+		Op::RawNextEnding => job.control(watchexec_supervisor::job::Control::NextEnding),
 	}
 }
 
